@@ -231,6 +231,54 @@ func c3Enum(root *zzverif.Rng, maxLayers int, emit func(*c3Case)) {
 				faults = append(faults, fault{stream: "h", reps: []c3Reply{c3Unauth(good)}, tok: []bool{false}},
 					fault{stream: "d", reps: []c3Reply{c3Unauth(good), c3K("status")}, tok: []bool{false}},
 					fault{stream: "h", reps: []c3Reply{c3Unauth(c3OddHeaders[3])}})
+				if li == 0 && resume == 0 {
+					// every JSON answer in a wrong shape: the manifest …
+					for _, shape := range c3ManifestShapes {
+						c, _, _, _ := mk()
+						if c3ShapeCase(c, shape) {
+							c.tag += "-shape-ok"
+							c.attempts = c3HonestTail(c, []c3Attempt{{}})
+						} else {
+							c.tag += "-shape-bad"
+							c.attempts = c3HonestTail(c, []c3Attempt{{ms: []c3Reply{c3Pass("badjson-" + shape)}}})
+						}
+						emit(c)
+					}
+					// … the token answer …
+					for _, shape := range c3TokenShapes {
+						c, _, _, _ := mk()
+						c.tag += "-tokshape"
+						c.attempts = c3HonestTail(c, []c3Attempt{{ms: []c3Reply{c3Unauth(good)}, tok: []bool{c3TokenShapeOK(shape)}, tokShape: []string{shape}}})
+						emit(c)
+					}
+					// … and a 10 MB error body on each registry stream
+					for _, st := range []string{"m", "h", "d"} {
+						c, dig, _, _ := mk()
+						a := c3Attempt{}
+						switch st {
+						case "m":
+							a.ms = []c3Reply{c3K("statusbig")}
+						case "h":
+							a.ls = []c3LScript{{dig: dig, head: []c3Reply{c3K("statusbig")}}}
+						case "d":
+							a.ls = []c3LScript{{dig: dig, direct: []c3Reply{c3K("statusbig")}}}
+						}
+						c.attempts = c3HonestTail(c, []c3Attempt{a})
+						emit(c)
+					}
+				}
+				if resume == 0 {
+					// a registry that really validates bearer tokens, and expires them between attempts: an attempt obtains a
+					// token and then fails; the honest retries (which are asked for a new token) must succeed
+					for _, f := range []c3LScript{{head: []c3Reply{c3K("status")}}, {direct: []c3Reply{c3Pass("badstatus")}},
+						{chunks: [][]c3Chunk{c3Repeat(c3Chunk{neterr: true, cut: -1}, maxRetries)}}, {head: []c3Reply{c3Unauth(good), c3K("notfound")}}} {
+						c, dig, _, _ := mk()
+						c.tag += "-auth"
+						f.dig = dig
+						c.attempts = c3HonestTail(c, []c3Attempt{{ms: []c3Reply{c3Unauth(good)}, validate: true, ls: []c3LScript{f}}})
+						emit(c)
+					}
+				}
 				// the caller cancels at a progress callback (between two store effects of PullModel), alone and together
 				// with a CDN fault on this layer that only the SHA-256 catches
 				for _, cp := range []string{"start", "writing", "verifying 0", "verifying 1", "verifying 2"} {
@@ -590,8 +638,14 @@ func c3Random(r *zzverif.Rng) *c3Case {
 	}
 	switch x := r.Intn(10); {
 	case x < 3:
-		old := r.Bytes(r.Range(1, 12))
+		old := append([]byte("old-layer-"), r.Bytes(r.Range(1, 12))...)
 		dO := c3Sha(old)
+		for _, b := range c.blobs { // never two entries for one digest
+			if b.dig == dO {
+				old = append(old, '+')
+				dO = c3Sha(old)
+			}
+		}
 		c.blobs = append(c.blobs, c3Blob{dO, old})
 		om := c3Manifest{layers: []c3Layer{{dO, int64(len(old))}}, config: c3Layer{"e", 0}}
 		if nl > 0 && r.Bool() { // the old manifest shares a layer with the new one (blob present and valid)
@@ -618,6 +672,7 @@ func c3Random(r *zzverif.Rng) *c3Case {
 		c.manifests = append(c.manifests, c3Man{name: 0, corrupt: true})
 	}
 	// scripted attempts
+	authHistory := r.Chance(1, 5)
 	na := r.Range(1, 2)
 	for ai := 0; ai < na; ai++ {
 		var a c3Attempt
@@ -659,7 +714,45 @@ func c3Random(r *zzverif.Rng) *c3Case {
 		if r.Chance(1, 6) {
 			a.cancel = zzverif.Pick(r, []string{"start", "writing", "verifying 0", "verifying 0", "verifying 1", "verifying 2"})
 		}
+		// token answers in odd JSON shapes
+		for i := range a.tok {
+			a.tokShape = append(a.tokShape, "")
+			if r.Chance(1, 3) {
+				sh := zzverif.Pick(r, c3TokenShapes)
+				if sh != "big" || r.Chance(1, 5) {
+					a.tokShape[i], a.tok[i] = sh, c3TokenShapeOK(sh)
+				}
+			}
+		}
 		c.attempts = append(c.attempts, a)
+	}
+	if authHistory {
+		for i := range c.attempts {
+			a := &c.attempts[i]
+			a.validate = true
+			a.ms = append([]c3Reply{c3Unauth(c3GoodChallenge)}, a.ms...)
+			for j := range a.tokShape { // a validating registry hands out real tokens
+				if a.tok[j] {
+					a.tokShape[j] = ""
+				}
+			}
+			if len(a.tok) > 0 && !a.tok[0] && r.Bool() {
+				a.tok[0] = true
+				a.tokShape[0] = ""
+			}
+		}
+		c.tag = "rand-auth"
+	}
+	if r.Chance(1, 8) {
+		sh := zzverif.Pick(r, c3ManifestShapes)
+		if sh != "big10m" || r.Chance(1, 5) {
+			if c3ShapeCase(c, sh) {
+				c.tag = "rand-shape-ok"
+			} else {
+				c.tag = "rand-shape-bad"
+				c.attempts[0].ms = append(c.attempts[0].ms, c3Pass("badjson-"+sh))
+			}
+		}
 	}
 	c.attempts = c3HonestTail(c, c.attempts)
 	return c
@@ -846,7 +939,7 @@ func c3RunCase(t *testing.T, out *zzverif.Out, c *c3Case) {
 			m := after.mans[c.name]
 			if m == nil {
 				out.L2("success-manifest-differs", line, "stored manifest missing or unreadable "+where)
-			} else if got, _ := json.Marshal(m); !bytes.Equal(got, c3ManifestJSON(c.reg)) {
+			} else if got, _ := json.Marshal(m); !bytes.Equal(got, c3StoredManifestJSON(c)) {
 				out.L2("success-manifest-differs", line, "stored="+string(got)+" "+where)
 			}
 		} else {
@@ -901,7 +994,7 @@ func c3RunCase(t *testing.T, out *zzverif.Out, c *c3Case) {
 	// with bad resume state legitimately needs k+1 honest attempts: the verdict is only given when the
 	// history ends with that many.
 	honest := 0
-	for i := len(c.attempts) - 1; i >= 0 && len(c.attempts[i].ls)+len(c.attempts[i].ms)+len(c.attempts[i].tok) == 0 && c.attempts[i].cancel == ""; i-- {
+	for i := len(c.attempts) - 1; i >= 0 && c3AttemptHonest(&c.attempts[i]); i-- {
 		honest++
 	}
 	if honest >= c3HonestNeeded(c) && initialGood && c3RegHonest(c) && lastClass != "ok" && !strings.HasPrefix(lastClass, "panic") {
@@ -1294,11 +1387,28 @@ func c3HonestNeeded(c *c3Case) int {
 	return max(2, len(set)+1)
 }
 
+// c3HonestTail: the honest attempts that end a history.  In a history whose registry validates bearer tokens, an
+// honest attempt still starts with the 401 that asks for a (new) token.
 func c3HonestTail(c *c3Case, a []c3Attempt) []c3Attempt {
+	auth := false
+	for _, x := range a {
+		auth = auth || x.validate
+	}
 	for i := c3HonestNeeded(c); i > 0; i-- {
-		a = append(a, c3Attempt{})
+		if auth {
+			a = append(a, c3Attempt{ms: []c3Reply{c3Unauth(c3GoodChallenge)}, validate: true})
+		} else {
+			a = append(a, c3Attempt{})
+		}
 	}
 	return a
+}
+
+func c3AttemptHonest(a *c3Attempt) bool {
+	if len(a.ls)+len(a.tok) != 0 || a.cancel != "" {
+		return false
+	}
+	return len(a.ms) == 0 || (a.validate && len(a.ms) == 1 && a.ms[0].kind == "unauth" && a.ms[0].arg == c3GoodChallenge)
 }
 
 func c3RepeatReply(r c3Reply, k int) []c3Reply {
